@@ -269,6 +269,9 @@ def configs(tier):
   cfgs.append(dict(base, sizes=[3, 2], grad='linrng', batch=1))
   cfgs.append(dict(base, sizes=[2, 1], sizes2=[0, 0], sopt='momentum', rounds=2))      # a round without any example after a round with data
   cfgs.append(dict(base, sizes=[1, 2, 3], backend='pmap', ndev=2, order=[1, 0, 2]))
+  cfgs.append(dict(base, sizes=[1, 3], backend='pmap', ndev=2))             # a pmap block whose first client is not its longest
+  cfgs.append(dict(base, sizes=[0, 3, 2], backend='pmap', ndev=2))          # ... and one led by an empty client
+  cfgs.append(dict(base, sizes=[3, 1], drop=True, epochs=2))                # drop_remainder over several epochs, size % batch != 0
   cfgs.append(dict(base, sizes=[2, 0, 3], grad='uf', copt='uf', sopt='uf'))
   cfgs.append(dict(base, sizes=[3, 2], grad='uf', copt='uf', sopt='uf', rounds=2))
   cfgs.append(dict(base, sizes=[0, 0], grad='uf', copt='uf', sopt='sgd'))
